@@ -1,5 +1,7 @@
 import Marwood.Lemmas.HeapWFOps
 import Marwood.Heap.Check
+import Marwood.Lemmas.SimObs
+import Marwood.Proofs.C13
 /-!
 # C03 — garbage collection never reclaims a live object (and what the unobservability proof needs)
 
@@ -13,8 +15,9 @@ pinned one; theorems that hold for both are stated for an arbitrary flag.
 * T03.3  `new_wf`, `alloc_preserves_wf`, `put_preserves_wf`, `maybePut_preserves_wf`, `free_preserves_wf`,
          `grow_preserves_wf`, `mark_preserves_wfcore`, `runGc_preserves_wf` — for the unfixed marker the negation is
          `unfixed_marker_breaks_wf`, `unfixed_marker_allocates_cell_twice`
-* T03.5  (unobservability for every program and schedule) is **not** a closed theorem here; see META.note of
-         lib/props/c03.py.
+* T03.5  (unobservability for every program and schedule): `gc_unobservable_partial`,
+         `gc_unobservable_value_partial` at the end of this file — closed up to the explicit hypotheses
+         `ExtLaws` (Lemmas/SimBuiltin.lean) and `Safe` (Lemmas/SimMain.lean); see META.note of lib/props/c03.py.
 -/
 namespace Marwood.Proofs.C03
 open Marwood Marwood.Heap Marwood.Spec
@@ -256,5 +259,160 @@ theorem unfixed_marker_allocates_cell_twice :
 theorem fixed_marker_allocates_each_cell_once :
     allocN 7 (collected (Heap.runGc true true
       (collected (Heap.runGc true true witness witnessRoots)) noRoots)) = [0, 2, 3, 4, 5, 6, 7] := by decide
+
+/-! ## T03.5 — collections at any set of instruction boundaries are unobservable
+
+Machine: `Marwood.Vm.Concrete.machine ext force` — `run_one` (Vm/Machine.lean) over the concrete heap
+(Vm/ConcreteHeap.lean), collector = `Heap.runGc` of this file's model through the erasure. Relation:
+`Sim φ` (Lemmas/SimDefs.lean), a partial injection on addresses relating everything reachable.
+Ingredients: (a) `cgc_sim` (Lemmas/SimGc.lean) from T03.2 / T03.3 above; (b) one lemma per opcode
+(Lemmas/SimStep{A..F}.lean, SimBuiltin.lean, symbol interning in SimSym.lean), assembled by `step_sim`;
+(c) `readObs_rel`, `eq_agree` (Lemmas/SimObs.lean).
+-/
+section Unobservable
+open Marwood.Vm Marwood.Vm.Concrete Marwood.Lemmas.Sim Marwood.Proofs.C13
+
+variable {S E : Type}
+
+/-- run `n` instructions with a collection in front of instruction `i` whenever `sched i` -/
+def runSched (m : Machine S E) (sched : Nat → Bool) : Nat → Nat → S → Res S E
+  | 0, _, s => .paused s
+  | n+1, i, s =>
+    match m.step (if sched i then m.gc s else s) with
+    | .halt s' => .done s'
+    | .fail e s' => .error e s'
+    | .next s' => runSched m sched n (i + 1) s'
+
+/-- for every machine whose collector is transparent for `R`: any schedule of collections is related to
+    the collection-free run -/
+theorem runSched_pureN (m : Machine S E) (R : S → S → Prop) (hT : GcTransparent m R) (sched : Nat → Bool) :
+    ∀ (n i : Nat) (s t : S), R s t → ResRel R (runSched m sched n i s) (pureN m n t) := by
+  intro n
+  induction n with
+  | zero => intro i s t h; exact .paused h
+  | succ n ih =>
+    intro i s t h
+    simp only [runSched, pureN]
+    have h' : R (if sched i then m.gc s else s) t := by
+      split
+      · exact hT.gc_left _ _ h
+      · exact h
+    have hs := hT.step _ _ h'
+    generalize m.step (if sched i then m.gc s else s) = r1 at hs
+    generalize m.step t = r2 at hs
+    cases hs with
+    | halt h2 => exact .done h2
+    | fail h2 => exact .error h2
+    | next h2 => exact ih (i + 1) _ _ h2
+
+/-- **T03.5 (partial: `ExtLaws`, `Safe`)** On the concrete machine, for every safe state (it is `Sim`-related
+    to itself by `sim_refl`), every schedule of collections at instruction boundaries and every instruction
+    count: the scheduled run and the collection-free run end with the same status (still running / HALT /
+    the same failure) in `Sim`-related states. -/
+theorem gc_unobservable_partial (ext : ExtOps) (force : Bool) (o : ExtLaws ext) (sched : Nat → Bool) (n : Nat)
+    (s0 : St CHeap) (h0 : Safe (machine ext force) s0) :
+    ResRel (Lemmas.Sim.R (machine ext force)) (runSched (machine ext force) sched n 0 s0)
+      (pureN (machine ext force) n s0) :=
+  runSched_pureN _ _ (gcTransparent_concrete_partial ext force o) sched n 0 s0 s0 (R_refl _ h0)
+
+/-- … and the value is the same: if the collection-free run reaches HALT, so does the scheduled run, and
+    the datum read out of `acc` (any fuel) is equal. -/
+theorem gc_unobservable_value_partial (ext : ExtOps) (force : Bool) (o : ExtLaws ext) (sched : Nat → Bool)
+    (n : Nat) (s0 t' : St CHeap) (h0 : Safe (machine ext force) s0)
+    (hk : pureN (machine ext force) n s0 = .done t') :
+    ∃ s', runSched (machine ext force) sched n 0 s0 = .done s' ∧
+      ∀ fuel, resultObs fuel s' = resultObs fuel t' := by
+  have h := gc_unobservable_partial ext force o sched n s0 h0
+  rw [hk] at h
+  generalize runSched (machine ext force) sched n 0 s0 = r at h
+  cases h with
+  | done hr =>
+    rename_i s'
+    refine ⟨s', rfl, ?_⟩
+    intro fuel
+    obtain ⟨⟨φ, hs⟩, ss, st⟩ := hr
+    exact resultObs_sim hs ss.good.size st.good.size fuel
+
+/-! ### non-vacuity: two concrete states related by a non-identity injection -/
+
+def hS : CHeap :=
+  { chunk := 4, cells := #[.val (.pair 1 1), .val (.opaque "n5"), .val .undefined, .val .undefined]
+    gc := #[.allocated, .allocated, .free, .free], free := [2, 3], symtab := [], globSyms := [], globals := #[] }
+
+def hT : CHeap :=
+  { chunk := 4, cells := #[.val .undefined, .val .undefined, .val (.pair 3 3), .val (.opaque "n5")]
+    gc := #[.free, .free, .allocated, .allocated], free := [1, 0], symtab := [], globSyms := [], globals := #[] }
+
+def stOf (h : CHeap) (a : Nat) : St CHeap :=
+  { heap := h, stack := { cells := [.undefined, .undefined], sp := 0 }, acc := .ptr a,
+    ep := usizeMax, ipL := usizeMax, ipO := 0, bp := 0 }
+
+def phi : Inj := fun a => if a = 0 then some 2 else if a = 1 then some 3 else none
+
+theorem four_cases {i : Nat} (hi : i < 4) : i = 0 ∨ i = 1 ∨ i = 2 ∨ i = 3 := by omega
+
+theorem hS_inv : HInv hS := by
+  refine ⟨by decide, ⟨by decide, by decide, 1, by decide, by decide⟩, ?_, by decide, ?_⟩
+  · intro i
+    by_cases hi : i < 4
+    · rcases four_cases hi with h | h | h | h <;> subst h <;> decide
+    · have h1 : hS.gc[i]? = none := Array.getElem?_eq_none (by simp [hS]; omega)
+      rw [h1]; simp [hS]; omega
+  · intro i
+    by_cases hi : i < 4
+    · rcases four_cases hi with h | h | h | h <;> subst h <;> decide
+    · have h1 : hS.gc[i]? = none := Array.getElem?_eq_none (by simp [hS]; omega)
+      rw [h1]; simp
+
+theorem hT_inv : HInv hT := by
+  refine ⟨by decide, ⟨by decide, by decide, 1, by decide, by decide⟩, ?_, by decide, ?_⟩
+  · intro i
+    by_cases hi : i < 4
+    · rcases four_cases hi with h | h | h | h <;> subst h <;> decide
+    · have h1 : hT.gc[i]? = none := Array.getElem?_eq_none (by simp [hT]; omega)
+      rw [h1]; simp [hT]; omega
+  · intro i
+    by_cases hi : i < 4
+    · rcases four_cases hi with h | h | h | h <;> subst h <;> decide
+    · have h1 : hT.gc[i]? = none := Array.getElem?_eq_none (by simp [hT]; omega)
+      rw [h1]; simp
+
+/-- the same list `(5 . 5)`-shaped structure at addresses 0,1 on the left and 2,3 on the right -/
+theorem demo_sim : Sim phi (stOf hS 0) (stOf hT 2) := by
+  have hsent : AddrRel phi usizeMax usizeMax := .inr ⟨rfl, by decide⟩
+  refine ⟨⟨?_, ?_, .nil, .nil, hS_inv, hT_inv⟩, ?_, .ptr (.inl rfl), hsent, hsent, rfl, rfl⟩
+  · intro a a' b h1 h2
+    unfold phi at h1 h2
+    by_cases e0 : a = 0 <;> by_cases e1 : a = 1 <;> by_cases f0 : a' = 0 <;> by_cases f1 : a' = 1 <;>
+      simp_all <;> omega
+  · intro a b hab
+    unfold phi at hab
+    by_cases e0 : a = 0
+    · subst e0
+      simp at hab; subst hab
+      exact ⟨_, _, rfl, rfl, .val (.pair (.inl rfl) (.inl rfl)), by decide, by decide⟩
+    · by_cases e1 : a = 1
+      · subst e1
+        simp at hab; subst hab
+        exact ⟨_, _, rfl, rfl, .val (.atom rfl), by decide, by decide⟩
+      · simp [e0, e1] at hab
+  · refine ⟨rfl, rfl, ?_⟩
+    intro i hi v v' h1 h2
+    have : i = 0 := by simpa [stOf] using hi
+    subst this
+    simp [stOf] at h1 h2
+    subst h1 h2
+    exact .atom rfl
+
+/-- the observation through the two heaps is the same datum -/
+example : resultObs 3 (stOf hS 0) = resultObs 3 (stOf hT 2) :=
+  resultObs_sim demo_sim (by show (4 : Nat) ≤ 2 ^ 63; decide) (by show (4 : Nat) ≤ 2 ^ 63; decide) 3
+
+example : resultObs 3 (stOf hS 0) = .pair (.atom (.opaque "n5")) (.atom (.opaque "n5")) := by rfl
+
+/-- allocation on the two sides hands out different addresses (3 vs 0): `φ` is extended, not equal -/
+example : (cput hS (.val .nil)).2 = 2 ∧ (cput hT (.val .nil)).2 = 1 := by decide
+
+end Unobservable
 
 end Marwood.Proofs.C03
